@@ -47,7 +47,8 @@ Definition is_high_surrogate (c : N) : bool := (55296 <=? c) && (c <=? 56319).
 Definition is_low_surrogate (c : N) : bool := (56320 <=? c) && (c <=? 57343).
 Definition replacement_char : bytes := [239; 191; 189].
 
-(* body of a string after the opening quote; acc is reversed *)
+(* body of a string after the opening quote; acc is reversed (rev_append acc [] = rev acc,
+   List.rev_alt: the tail-recursive reversal is linear after extraction, List.rev is quadratic) *)
 Fixpoint parse_str (fuel : nat) (s : bytes) (acc : bytes) : option (bytes * bytes) :=
   match fuel with
   | O => None
@@ -55,7 +56,7 @@ Fixpoint parse_str (fuel : nat) (s : bytes) (acc : bytes) : option (bytes * byte
       match s with
       | [] => None
       | c :: r =>
-          if c =? 34 then Some (rev acc, r)
+          if c =? 34 then Some (rev_append acc [], r)
           else if c <? 32 then None
           else if c =? 92 then
             match r with
@@ -188,7 +189,7 @@ with parse_elems (fuel : nat) (s : bytes) (acc : list json) {struct fuel} : opti
           match eat 44 (skip_ws r) with
           | Some r' => parse_elems f r' (v :: acc)
           | None => match eat 93 (skip_ws r) with
-                    | Some r' => Some (rev (v :: acc), r')
+                    | Some r' => Some (rev_append (v :: acc) [], r')
                     | None => None
                     end
           end
@@ -212,7 +213,7 @@ with parse_members (fuel : nat) (s : bytes) (acc : list (bytes * json)) {struct 
                       match eat 44 (skip_ws r3) with
                       | Some r4 => parse_members f r4 ((k, v) :: acc)
                       | None => match eat 125 (skip_ws r3) with
-                                | Some r4 => Some (rev ((k, v) :: acc), r4)
+                                | Some r4 => Some (rev_append ((k, v) :: acc) [], r4)
                                 | None => None
                                 end
                       end
